@@ -165,6 +165,26 @@ CHECKS = {
             "restored on return.",
             "Trusted: ref.model (table-driven stepper) and the row semantics it uses. Quick uses 8 NZCV values on which "
             "every condition takes both outcomes and the exception items only on blocks of length <= 2.", "3 C08"),
+    "C06": ("read-directed exhaustive cube exploration (lazily resolved instruction word) of the JOINT function real "
+            "decoder+from_bitarray x reference encoding table; verdicts compared at every leaf; leaves tile the space",
+            "The real decode_instruction + from_bitarray and the reference table (622 rows transcribed from the ARM ARM "
+            "encoding diagrams, incl. UNDEFINED / not-implemented-extension regions) are run together on a lazily resolved "
+            "32-bit word; each completed run is a cube of words on which BOTH take a constant path, so comparing class / "
+            "UNDEFINED / NOTIMPL / UNPREDICTABLE verdicts at the leaf decides every word of the cube, and the cube sizes "
+            "must add up to the explored space (checked). Operands are compared exactly, by bit-provenance vector, or "
+            "by concrete enumeration of every assignment of the bits either side depends on. Thorough explores all 2^32 "
+            "words under arch versions 7/6/5; quick explores conditions AL, NV and EQ (3 x 2^28 words) at v7, both carry values "
+            "on the modified-immediate space.",
+            "Trusted: armmc/ref/rows_*.py and armmc/lazyword.py (self-checked against a 2^16 brute force at setup). "
+            "UNPREDICTABLE encodings: one-sided comparison. Observations of more than 10 (thorough 16) unresolved bits "
+            "use a pattern alphabet (reported as words_outside_cap).", "3 C06, 2.2"),
+    "C07": ("brute force over all 2^16 Thumb halfwords x IT position x carry + joint lazy-word cube exploration of the "
+            "3 x 2^27 32-bit Thumb words + all 2^16 first halfwords through the real fetch",
+            "Every 16-bit halfword is decoded in 6 contexts (outside / last / inside an IT block x carry) and class + every "
+            "operand compared with the reference table; the 32-bit space is explored as in C06 in 4 (thorough 6) contexts; "
+            "the fetch rule (32-bit iff top five bits 11101/11110/11111, word = hw1:hw2, independent of mode / E / IT) is "
+            "checked for every first halfword through fetch_instruction().",
+            "As C06. One open known finding (CBZ offset scaling).", "3 C07"),
 }
 NOT_YET = "check not built yet in this round (see DESIGN.md section 3 for the planned bounded-exhaustive formulation)"
 
